@@ -158,6 +158,7 @@ func c04One(r *Run, in *instance, wr string) {
 		}
 	}
 	nSecret := 0
+	var unbound []int
 	for ki, k := range keys {
 		ki := ki
 		k := k
@@ -174,20 +175,7 @@ func c04One(r *Run, in *instance, wr string) {
 			// ... and it must reach a condition: a cap entry is looked up by the query's cap index in the
 			// Merkle check of the constants/sigmas oracle, so its value occurs in that condition
 			if ki < len(vd.ConstantSigmasCap) && !constVals[t.C.String()] {
-				cr := &circuitReplay{Kind: "circuit", Wrapper: wr, Instance: in.Base, K: in.K, Expect: "accepted", KeyEdits: []keyEdit{{Index: ki, Add: "1"}}}
-				for j := range vd.ConstantSigmasCap {
-					if j != ki {
-						cr.KeyEdits = append(cr.KeyEdits, keyEdit{Index: j, Add: "1"})
-					}
-				}
-				acc, msg := runCircuitReplay(cr, r.Repo)
-				if acc {
-					r.addViolationWithReplay(fmt.Sprintf("verifier key element does not reach any condition (%s wrapper)", wr),
-						fmt.Sprintf("%s/%s: the constant %s of the verifier key occurs in no condition of the circuit; a wrapper built for a key whose constants/sigmas cap is altered in every entry accepts the proof of the original inner circuit", in.Name, wr, k.name),
-						toMap(cr), "real circuit built for the altered key (test.IsSolved) accepts the unmodified valid proof")
-				} else {
-					r.Infra("%s/%s: key element %s occurs in no condition, but the wrapper built for the altered key rejects the honest proof (%s)", in.Name, wr, k.name, short(msg, 80))
-				}
+				unbound = append(unbound, ki)
 			}
 		case t.Op == sym.OpAtom && vis[t] == "public":
 			em.Assert(fmt.Sprintf("(not (= %s %s))", em.Ref(t), em.Ref(t)))
@@ -240,6 +228,21 @@ func c04One(r *Run, in *instance, wr string) {
 					}
 					return &Violation{What: fmt.Sprintf("the %s wrapper takes the inner circuit's verifier key as a secret witness: the honest proof is accepted together with an altered key (constants_sigmas_cap[%d] + 1, an entry no query of this proof selects)", wr, try), Replay: toMap(cr), Outcome: "real circuit (test.IsSolved) accepts the assignment whose verifier data differs from the template"}
 				}})
+		}
+	}
+	if len(unbound) > 0 {
+		// a wrapper built for a key that differs in exactly the unbound entries must reject the original proof
+		cr := &circuitReplay{Kind: "circuit", Wrapper: wr, Instance: in.Base, K: in.K, Expect: "accepted"}
+		for _, j := range unbound {
+			cr.KeyEdits = append(cr.KeyEdits, keyEdit{Index: j, Add: "1"})
+		}
+		acc, msg := runCircuitReplay(cr, r.Repo)
+		if acc {
+			r.addViolationWithReplay(fmt.Sprintf("verifier key element does not reach any condition (%s wrapper)", wr),
+				fmt.Sprintf("%s/%s: the constants/sigmas cap entries %v of the verifier key occur in no condition of the circuit; a wrapper built for a key altered in exactly these entries accepts the proof of the original inner circuit", in.Name, wr, unbound),
+				toMap(cr), "real circuit built for the altered key (test.IsSolved) accepts the unmodified valid proof")
+		} else {
+			r.Infra("%s/%s: key elements %v occur in no condition, but the wrapper built for the altered key rejects the honest proof (%s)", in.Name, wr, unbound, short(msg, 80))
 		}
 	}
 	var sel []int
